@@ -113,6 +113,14 @@ pub struct EbrMon {
     pub list_invoked: std::collections::HashSet<usize>,
     pub list_deleted: HashMap<usize, u64>,
     pub list_finalized: HashMap<usize, u32>,
+    /// (participant, announced epoch) of the thread's most recent pin / re-pin
+    pub last_pin: [Option<(usize, usize)>; sched::MAX_THREADS],
+    /// (participant, announced epoch) the thread's current driver-level critical section began
+    /// with; `None` outside critical sections and while the driver reactivates its guard
+    pub cs_pin: [Option<(usize, usize)>; sched::MAX_THREADS],
+    /// C17: value of the queue element the driver itself is destroying right now
+    pub q_dropping: Option<u64>,
+    pub q_drops: HashMap<u64, u32>,
 }
 
 pub struct Monitor {
@@ -153,6 +161,8 @@ pub struct Monitor {
     /// observers (nothing unsafe follows from going on) are noted and the execution continues,
     /// so that they do not mask the property under check
     pub focus: Option<String>,
+    /// value of `events` when `violation` was recorded
+    pub violation_event: u64,
     pub foreign: Vec<(&'static str, &'static str)>,
     pub destructs: u64,
     pub last_destruct_epoch: Option<usize>,
@@ -223,6 +233,7 @@ impl Monitor {
             foreign: Vec::new(),
             destructs: 0,
             last_destruct_epoch: None,
+            violation_event: 0,
             max_latency: 0,
         }
     }
@@ -280,8 +291,16 @@ impl Monitor {
     }
 
     pub fn violate(&mut self, prop: &'static str, kind: &'static str, detail: String) {
-        if self.violation.is_some() {
-            return;
+        if let Some(v) = &self.violation {
+            // One event can break several properties at once (a block freed while strongly and
+            // weakly owned): the property being checked gets to report its own condition.
+            let same_event_other_property = self.violation_event == self.events
+                && self.claim.is_none()
+                && self.focus.as_deref().map(|f| f == prop && f != v.prop).unwrap_or(false);
+            if !same_event_other_property {
+                return;
+            }
+            self.violation = None;
         }
         let t = sched::tid();
         let op = if t < sched::MAX_THREADS {
@@ -297,7 +316,7 @@ impl Monitor {
         if let Some(f) = &self.focus {
             // (the count-word-after-free observation is harmless to continue from: the block is
             // quarantined, not freed)
-            if f != prop && (["C13", "C14", "C15", "C05"].contains(&prop) || kind == "count-access-after-free") {
+            if f != prop && (["C13", "C14", "C15", "C16", "C05"].contains(&prop) || kind == "count-access-after-free") {
                 if self.foreign.len() < 8 {
                     self.foreign.push((prop, kind));
                 }
@@ -312,6 +331,7 @@ impl Monitor {
             op,
             clock: self.clock,
         });
+        self.violation_event = self.events;
         if t != sched::NONE {
             sched::halt_execution();
         }
@@ -462,6 +482,9 @@ impl Monitor {
                 let l = self.canon(local);
                 self.mix(0x20 ^ ((l as u64) << 8) ^ ((epoch as u64 & 0xffff) << 40));
                 self.locals.insert(local, Some(epoch));
+                if t < sched::MAX_THREADS {
+                    self.ebr.last_pin[t] = Some((local, epoch));
+                }
                 self.log(|| format!("pinned L{} e={}", l, epoch));
                 self.check_epoch_invariant("pinned");
             }
@@ -471,6 +494,25 @@ impl Monitor {
                 self.locals.insert(local, Some(epoch));
                 self.log(|| format!("repinned L{} e={}", l, epoch));
                 self.cover("repinned");
+                if t < sched::MAX_THREADS {
+                    self.ebr.last_pin[t] = Some((local, epoch));
+                    // The library re-pins on its own only while it collects, i.e. after the
+                    // thread's last guard has begun to go away. A driver-level critical section
+                    // (first guard obtained .. last guard about to be dropped, not reactivated)
+                    // keeps the epoch it was pinned in.
+                    if let Some((cl, ce)) = self.ebr.cs_pin[t] {
+                        if cl == local && ce != epoch && self.ebr.active[t].is_some() {
+                            self.violate(
+                                "C16",
+                                "repinned-with-live-guards",
+                                format!(
+                                    "participant L{} was moved from epoch {} to {} while the thread holds {} live guard(s) and did not reactivate: its critical section was silently ended",
+                                    l, ce, epoch, self.ebr.depth[t]
+                                ),
+                            );
+                        }
+                    }
+                }
                 self.check_epoch_invariant("repinned");
             }
             Event::Unpinned { local } => {
@@ -497,6 +539,20 @@ impl Monitor {
                     }
                     self.global_epoch = Some(n);
                     self.check_epoch_invariant("advance");
+                    // the same bound for the epoch a driver-level critical section began with,
+                    // whatever the participant announces by now
+                    for u in 0..sched::MAX_THREADS {
+                        if let (Some(_), Some((_, ce))) = (self.ebr.active[u], self.ebr.cs_pin[u]) {
+                            let d = n.wrapping_sub(ce);
+                            if d > 1 && d < usize::MAX / 2 {
+                                self.violate(
+                                    "C14",
+                                    "critical-section-sees-two-advances",
+                                    format!("thread {} has been inside one critical section since epoch {} and the global epoch is now {}", u, ce, n),
+                                );
+                            }
+                        }
+                    }
                 }
             }
             Event::BagSealed { epoch, len } => {
@@ -692,18 +748,24 @@ impl Monitor {
             let id = self.ebr.ended.len() as u32;
             self.ebr.ended.push(false);
             self.ebr.active[t] = Some(id);
+            self.ebr.cs_pin[t] = self.ebr.last_pin[t];
             self.log(|| format!("cs-instance {} begins", id));
         }
     }
 
     /// A guard of thread `t` is about to be dropped.
     pub fn cs_leave(&mut self, t: usize) {
+        if self.ebr.depth[t] == 0 {
+            // a guard the monitor was never told about
+            return;
+        }
         self.ebr.depth[t] -= 1;
         if self.ebr.depth[t] == 0 {
             if let Some(id) = self.ebr.active[t].take() {
                 self.ebr.ended[id as usize] = true;
                 self.log(|| format!("cs-instance {} ends", id));
             }
+            self.ebr.cs_pin[t] = None;
         }
     }
 
@@ -713,6 +775,7 @@ impl Monitor {
             if let Some(id) = self.ebr.active[t].take() {
                 self.ebr.ended[id as usize] = true;
             }
+            self.ebr.cs_pin[t] = None;
             true
         } else {
             false
@@ -724,6 +787,7 @@ impl Monitor {
             let id = self.ebr.ended.len() as u32;
             self.ebr.ended.push(false);
             self.ebr.active[t] = Some(id);
+            self.ebr.cs_pin[t] = self.ebr.last_pin[t];
         }
     }
 
@@ -785,6 +849,20 @@ impl Monitor {
             } else {
                 self.objs[o as usize].cells += 1;
             }
+        }
+    }
+
+    /// The driver replaced the content of a weak cell through exclusive access (`get_mut`), which
+    /// emits no event: the previous content was dropped as a plain `Weak`.
+    pub fn cell_assign(&mut self, cell: usize, word: usize) {
+        if let Some((old, weak)) = self.cells.insert(cell, (word, true)) {
+            debug_assert!(weak);
+            if let Some(o) = self.obj_of_word(old) {
+                self.objs[o as usize].wcells -= 1;
+            }
+        }
+        if let Some(o) = self.obj_of_word(word) {
+            self.objs[o as usize].wcells += 1;
         }
     }
 
